@@ -717,9 +717,31 @@ Proof.
 Qed.
 
 (* C06: a CER is ignored unless the connection exists and is CONNECTED (the CER is awaited): a second CER, or a
-   CER on an established, disconnecting or closing connection, changes nothing and is not answered *)
+   CER on an established, disconnecting or closing connection, is not answered and changes nothing except that
+   the request, which will never be answered, leaves the origin table (drop_origin touches n_origin_waiting only) *)
+Lemma drop_origin_fields n h e :
+  n_cfg (drop_origin n h e) = n_cfg n /\ n_now (drop_origin n h e) = n_now n /\
+  n_io_deadline (drop_origin n h e) = n_io_deadline n /\ n_stopping (drop_origin n h e) = n_stopping n /\
+  n_peers (drop_origin n h e) = n_peers n /\ n_conns (drop_origin n h e) = n_conns n /\
+  n_next_cid (drop_origin n h e) = n_next_cid n /\ n_half_ready (drop_origin n h e) = n_half_ready n /\
+  n_socket_peers (drop_origin n h e) = n_socket_peers n /\ n_routes (drop_origin n h e) = n_routes n /\
+  n_apps (drop_origin n h e) = n_apps n /\ n_app_waiting (drop_origin n h e) = n_app_waiting n /\
+  n_peer_waiting (drop_origin n h e) = n_peer_waiting n /\ n_sent_answers (drop_origin n h e) = n_sent_answers n /\
+  n_e2e (drop_origin n h e) = n_e2e n /\
+  n_origin_waiting (drop_origin n h e) =
+    List.filter (fun x => let '(h', e', _) := x in negb ((h' =? h) && (e' =? e))) (n_origin_waiting n).
+Proof. repeat split. Qed.
+Lemma drop_origin_get_conn n h e k : get_conn (drop_origin n h e) k = get_conn n k.
+Proof. reflexivity. Qed.
+Lemma drop_origin_get_peer n h e p : get_peer (drop_origin n h e) p = get_peer n p.
+Proof. reflexivity. Qed.
+Lemma drop_origin_pnames n h e : pnames (drop_origin n h e) = pnames n.
+Proof. reflexivity. Qed.
+
 Theorem C06_cer_ignored_unless_connected n cid m :
-  (forall c, get_conn n cid = Some c -> c_state c <> SConnected) -> recv_cer n cid m = (n, []).
+  (forall c, get_conn n cid = Some c -> c_state c <> SConnected) ->
+  recv_cer n cid m =
+  (match get_conn n cid with Some _ => drop_origin n (m_hbh m) (m_e2e m) | None => n end, []).
 Proof.
   intros H. unfold recv_cer. destruct (get_conn n cid) as [c0|]; [|reflexivity].
   specialize (H c0 eq_refl). destruct (c_state c0); try reflexivity. congruence.
@@ -2077,7 +2099,7 @@ Proof.
   intros Hk Hr HQ.
   destruct (get_conn n cid) as [c0|] eqn:Hc0; [|unfold recv_cer; rewrite Hc0; apply ev_refl].
   destruct (cstate_eqb (c_state c0) SConnected) eqn:Hs0;
-    [|unfold recv_cer; rewrite Hc0, Hs0; apply ev_refl].
+    [|unfold recv_cer; rewrite Hc0, Hs0; apply ev_same; reflexivity].
   assert (Hs : c_state c0 = SConnected) by (apply cstate_eqb_eq, Hs0).
   apply (ev_drop_R _ _ R n _ cid c0 Hc0); [rewrite Hs; reflexivity|].
   destruct (m_origin m) as [| |host] eqn:Ho;
